@@ -1057,6 +1057,37 @@ func c13Gen(c *Ctx) {
 	c.SetExhaustive()
 	c.Note(fmt.Sprintf("exhaustive part: DList — for every state (list 0 with 0..%d nodes, list 1 with 0..%d nodes, one removed node, one never-inserted node) every operation the specification defines with every handle choice (live, foreign, removed, new), followed by a full observation of both lists and all handles; two such operations in sequence for list 0 <= %d, list 1 <= %d nodes; all pairs of operations on untouched zero-value / initialised lists. SList — sizes 0..4, every operation with every index in -1..n+1 (Swap: all pairs) and every detached node, sequences of %d operations", maxA, maxB, a2, b2, depth))
 
+	// ---------------- long lists copied onto themselves and onto each other (block-wise copying, counted loops)
+	sizes := []int{40, 63, 64, 65, 100, 127, 128, 129, 200, 255, 256, 257, 300}
+	c.Each(len(sizes)*8, func(i int, t *T) {
+		r := t.R
+		k := sizes[i/8]
+		a := &c13Abs{fresh: 2}
+		var in []int64
+		put := func(o [4]int64) { in = append(in, o[0], o[1], o[2], o[3]); a.apply(o) }
+		for j := 0; j < k; j++ {
+			put([4]int64{int64(8 + j%2), 0, int64(100 + j), 0}) // PushFront / PushBack on list 0
+		}
+		for j, m := 0, []int{0, 1, 3, 70}[(i/2)%4]; j < m; j++ {
+			put([4]int64{9, 1, int64(1000 + j), 0})
+		}
+		L, other := int64(0), int64(0) // self-copy of the long list ...
+		switch i % 8 {
+		case 2, 3:
+			L, other = 1, 0 // ... the long list copied onto the other one
+		case 4, 5:
+			L, other = 0, 1
+		case 6, 7:
+			L, other = 1, 1
+		}
+		put([4]int64{int64(20 + i%2), L, other, 0})
+		if r.Intn(2) == 0 {
+			put([4]int64{int64(20 + r.Intn(2)), L, other, 0})
+		}
+		in = append(in, a.observe()...)
+		t.Try("dlist-long-copies", append([]int64{0, int64(i % 2), int64((i / 2) % 2)}, in...), true)
+	})
+
 	// ---------------- random long sequences
 	nr := c.N(4000, 400000)
 	c.Each(nr, func(i int, t *T) {
